@@ -10,6 +10,10 @@ inductive Op where
   | flush (now : Int)
   /-- `_async_broadcast_service` of info `oid` returned at `now`: if its task is still pending in the model (due now), it must stop here -/
   | stop (oid : Nat) (ttl : Option Nat) (addresses : Bool) (now : Int)
+  /-- the `ServiceInfo` object `oid` now has these fields (it was renamed by a re-registration while one of its tasks runs: D27) -/
+  | mut (oid : Nat) (s : Svc)
+  /-- a public close call begins (`sync = false`: `AsyncZeroconf.async_close`): which blocks will it consist of? -/
+  | closecall (sync : Bool) (now : Int)
 
 def parseEntry : Tok (Rec × List Rec) := do
   let k ← Rec.parse
@@ -34,6 +38,8 @@ def parseOp : Tok Op := do
   | "close" => pure (.blk .close none)
   | "flush" => do let now ← Tok.int; pure (.flush now)
   | "stop" => do let oid ← Tok.nat; let ttl ← Tok.optNat; let ad ← Tok.bool; let now ← Tok.int; pure (.stop oid ttl ad now)
+  | "mut" => do let oid ← Tok.nat; let s ← parseSvc; pure (.mut oid s)
+  | "closecall" => do let k ← Tok.next; let now ← Tok.int; pure (.closecall (k == "s") now)
   | _ => failure
 
 def pktsStr (ps : List Pkt) : String := if ps.isEmpty then "-" else ";".intercalate (ps.map Pkt.canon)
@@ -44,8 +50,18 @@ def flushTasks (h : Host) (now : Int) : Host × Nat :=
   let missed := overdue.filter (fun t => ((t.step (registeredAs asciiLower h.reg t.svc t.oid)).2).isSome)
   ({ h with tasks := h.tasks.filter (fun t => !(t.due < now) || ((t.step (registeredAs asciiLower h.reg t.svc t.oid)).2).isSome) }, missed.length)
 
+def blockName : Block → String
+  | .unregisterAll _ => "all"
+  | .allStep _ => "alls"
+  | .close => "close"
+  | _ => "?"
+
 def runOps : Host → List Op → List String → List String
   | _, [], acc => acc.reverse
+  | h, .mut oid s :: ops, acc => runOps (h.mutate oid s) ops ("ok" :: acc)
+  | h, .closecall sync now :: ops, acc =>
+    let prog := if sync then syncClose h now [] [] else asyncClose h now [] []
+    runOps h ops (",".intercalate (prog.map blockName) :: acc)
   | h, .flush now :: ops, acc =>
     let (h', n) := flushTasks h now
     let closeLate := h.closing.any (fun a => decide (a.due < now))
